@@ -24,12 +24,26 @@ def write_if_changed(path, text):
     if old != text:
         with open(path, "w") as f:
             f.write(text)
-        # the sandbox clock is coarse: make sure a stale object file can never look newer than the new text
-        for ext in (".vo", ".vok", ".vos", ".glob"):
-            try:
-                os.unlink(path[:-2] + ext)
-            except OSError:
-                pass
+        # the sandbox clock is coarse: make sure a stale object file can never look newer than the new text,
+        # neither the file's own nor those of the files that import it (their dependents are then rebuilt by make)
+        def drop(v):
+            for ext in (".vo", ".vok", ".vos", ".glob"):
+                try:
+                    os.unlink(v[:-2] + ext)
+                except OSError:
+                    pass
+        drop(path)
+        mod = os.path.basename(path)[:-2]
+        root = os.path.dirname(os.path.dirname(os.path.abspath(path)))      # .../coq
+        for d, _, names in os.walk(root):
+            for n in names:
+                if n.endswith(".v"):
+                    f = os.path.join(d, n)
+                    try:
+                        if mod in open(f, errors="replace").read() and os.path.abspath(f) != os.path.abspath(path):
+                            drop(f)
+                    except OSError:
+                        pass
         return True
     return False
 
